@@ -31,6 +31,7 @@ NOTES = {
     'C02-A': 'obsolete: it moved the PushRegisters / PopRegisters of FOR bodies, which the fix cdfc88a removed (limit and step are hidden variables now); C02-B covers the property on the current tree',
     'C15-B': 'obsolete: it instrumented the register frames of FOR bodies, which the fixes 511011f and cdfc88a removed; replaced by the hand-made C15-C',
     'C16-B': 'neutralised by the fix e9c09b1 (one PrintState per PRINT statement): the leaked format cursor no longer exists; on the pre-fix PRINT code the uhist group reports it; replaced by the hand-made C16-C',
+    'C15-D': 'obsolete: it rearranged where the SELECT CASE subject is popped from the value stack; since the fix 9b22fbe the subject lives in a hidden variable and nothing is on the stack (C15-C, ported, and C15-F cover the property on the current tree)',
     'C15-E': 'obsolete: it rearranged where the SELECT CASE subject is popped from the value stack; since the fix 9b22fbe the subject lives in a hidden variable and nothing is on the stack',
 }
 HAND_MADE = {'C15-C', 'C16-C', 'C06-C'}
